@@ -1,1 +1,16 @@
-fn main() { println!("kvh"); }
+//! kvh — verification harness driving the real KyroDB engine code in-process.
+mod proto;
+mod qcache;
+mod tiered;
+
+fn main() {
+    let args: Vec<String> = std::env::args().collect();
+    match args.get(1).map(|s| s.as_str()) {
+        Some("tiered") => tiered::run(),
+        Some("qcache") => qcache::run(),
+        _ => {
+            eprintln!("usage: kvh <engine>");
+            std::process::exit(2);
+        }
+    }
+}
